@@ -19,9 +19,16 @@ import (
 // requests decoded and the error that ended the loop. It never recovers from
 // panics. Only compiled with the "verif" build tag.
 func VerifDecodeStream(stream []byte, visit func(*Request)) (int, error) {
+	return VerifDecodeStreamLogged(stream, hclog.NewNullLogger(), visit)
+}
+
+// VerifDecodeStreamLogged is VerifDecodeStream with the connection's logger
+// supplied by the caller: the read path has code that only runs when the
+// logger is at debug level. Only compiled with the "verif" build tag.
+func VerifDecodeStreamLogged(stream []byte, logger hclog.Logger, visit func(*Request)) (int, error) {
 	c := &conn{
 		connID: 1,
-		logger: hclog.NewNullLogger(),
+		logger: logger,
 		router: &Mux{},
 		reader: bufio.NewReader(bytes.NewReader(stream)),
 	}
